@@ -9,6 +9,7 @@ mod exhaustive;
 mod extra;
 mod serde_campaign;
 mod gen;
+mod probe;
 mod run;
 mod types;
 
@@ -48,7 +49,7 @@ impl Drv {
     pub fn ask(&mut self, line: &str) -> String {
         let mut ln: Vec<(u64, u64)> = vec![];
         let mut ex: Vec<(u64, u64)> = vec![];
-        for _ in 0..64 {
+        for _ in 0..600 {
             let mut full = line.to_string();
             if !ln.is_empty() {
                 full.push_str(" ln=");
